@@ -338,3 +338,145 @@ func Fn(name string, ret *Type, body *Block, ps ...Param) *Func {
 	return &Func{Name: name, Params: ps, Ret: ret, Body: body}
 }
 func P(n string, t *Type) Param { return Param{Name: n, T: t} }
+
+// ---------------------------------------------------------------- syntactic features
+
+// HasCapture reports whether some function literal references a local variable of an
+// enclosing function (a capturing closure).
+func HasCapture(p *Program) bool {
+	found := false
+	globals := map[string]bool{"print": true, "println": true, "throw": true, "assert": true, "time": true, "fmt": true}
+	for _, g := range p.Globals {
+		globals[g.Name] = true
+	}
+	for _, f := range p.Funcs {
+		globals[f.Name] = true
+	}
+	var walkBlock func(b *Block, bound map[string]bool, inLit bool)
+	var walkExpr func(e Expr, bound map[string]bool, inLit bool)
+	cp := func(m map[string]bool) map[string]bool {
+		n := map[string]bool{}
+		for k, v := range m {
+			n[k] = v
+		}
+		return n
+	}
+	walkBlock = func(b *Block, bound map[string]bool, inLit bool) {
+		if b == nil {
+			return
+		}
+		bound = cp(bound)
+		for _, s := range b.Stmts {
+			switch n := s.(type) {
+			case *Let:
+				walkExpr(n.X, bound, inLit)
+				bound[n.Name] = true
+			case *Return:
+				if n.X != nil {
+					walkExpr(n.X, bound, inLit)
+				}
+			case *Loop:
+				walkBlock(n.Body, bound, inLit)
+			case *While:
+				walkExpr(n.Cond, bound, inLit)
+				walkBlock(n.Body, bound, inLit)
+			case *For:
+				walkExpr(n.Iter, bound, inLit)
+				b2 := cp(bound)
+				b2[n.Var] = true
+				walkBlock(n.Body, b2, inLit)
+			case *ExprStmt:
+				walkExpr(n.X, bound, inLit)
+			case *Trigger:
+				for _, a := range n.Args {
+					walkExpr(a, bound, inLit)
+				}
+			}
+		}
+		if b.Tail != nil {
+			walkExpr(b.Tail, bound, inLit)
+		}
+	}
+	walkExpr = func(e Expr, bound map[string]bool, inLit bool) {
+		switch n := e.(type) {
+		case *Ident:
+			if inLit && !bound[n.Name] && !globals[n.Name] {
+				found = true
+			}
+		case *Infix:
+			walkExpr(n.L, bound, inLit)
+			walkExpr(n.R, bound, inLit)
+		case *Prefix:
+			walkExpr(n.X, bound, inLit)
+		case *Group:
+			walkExpr(n.X, bound, inLit)
+		case *Call:
+			walkExpr(n.Fn, bound, inLit)
+			for _, a := range n.Args {
+				walkExpr(a, bound, inLit)
+			}
+		case *Index:
+			walkExpr(n.X, bound, inLit)
+			walkExpr(n.I, bound, inLit)
+		case *Member:
+			walkExpr(n.X, bound, inLit)
+		case *Assign:
+			walkExpr(n.L, bound, inLit)
+			walkExpr(n.R, bound, inLit)
+		case *Cast:
+			walkExpr(n.X, bound, inLit)
+		case *ListLit:
+			for _, a := range n.Elems {
+				walkExpr(a, bound, inLit)
+			}
+		case *ObjLit:
+			for _, f := range n.Fields {
+				walkExpr(f.X, bound, inLit)
+			}
+		case *RangeLit:
+			walkExpr(n.From, bound, inLit)
+			walkExpr(n.To, bound, inLit)
+		case *FnLit:
+			// a new function: only its own parameters and locals are bound
+			b2 := map[string]bool{}
+			for _, p := range n.Params {
+				b2[p.Name] = true
+			}
+			walkBlock(n.Body, b2, true)
+		case *If:
+			walkExpr(n.Cond, bound, inLit)
+			walkBlock(n.Then, bound, inLit)
+			walkBlock(n.Else, bound, inLit)
+			if n.ElIf != nil {
+				walkExpr(n.ElIf, bound, inLit)
+			}
+		case *Match:
+			walkExpr(n.X, bound, inLit)
+			for _, a := range n.Arms {
+				for _, l := range a.Lits {
+					walkExpr(l, bound, inLit)
+				}
+				walkExpr(a.Body, bound, inLit)
+			}
+		case *Try:
+			walkBlock(n.Body, bound, inLit)
+			b2 := cp(bound)
+			b2[n.Var] = true
+			walkBlock(n.Catch, b2, inLit)
+		case *BlockExpr:
+			walkBlock(n.B, bound, inLit)
+		case *Spawn:
+			for _, a := range n.Args {
+				walkExpr(a, bound, inLit)
+			}
+		}
+	}
+	for _, f := range p.Funcs {
+		b := map[string]bool{}
+		for _, pa := range f.Params {
+			b[pa.Name] = true
+		}
+		walkBlock(f.Body, b, false)
+	}
+	return found
+}
